@@ -1175,7 +1175,7 @@ def run_histories(rep, tier, *, pid, module, checker, sizes, with_write, quick_b
     rep.scope(
         f"all histories of length <= 2 over the menu x {len(cases)} (network, tree) pairs x {len(preps)} prepared cache states {preps}",
         rep.evaluations - n0, exhaustive=(t_out == 0),
-        bound=f"3-5 tensors, <= 6 indices, sizes {'1-3' if sizes == 'small' else 'distinct primes'}; menu = {nfixed} fixed ops + 3 per index"
+        bound=f"3-5 tensors, <= {max(len(all_indices(c)) for c in cases)} indices, sizes {'1-3' if sizes == 'small' else 'distinct primes'}; menu = {nfixed} fixed ops + 3 per index"
         + ("" if not t_out else f"; {t_out} work items cut by the time budget"),
     )
 
